@@ -8,7 +8,7 @@ GR="$(GOTOOLCHAIN=local go1.26.8 env GOROOT)"
 OUT="${VERIF_OVERLAY_OUT:-$VERIF/.bin/overlay}"
 REPO="${VERIF_REPO:-/repo}"
 mkdir -p "$OUT"
-python3 - "$GR/src/runtime/select.go" "$OUT/runtime_select.go" "$GR/src/runtime/chan.go" "$OUT/runtime_chan.go" <<'PY'
+python3 - "$GR/src/runtime/select.go" "$OUT/runtime_select.go" "$GR/src/runtime/chan.go" "$OUT/runtime_chan.go" "$GR/src/runtime/sema.go" "$OUT/runtime_sema.go" <<'PY'
 import sys,re
 src=open(sys.argv[1]).read()
 needle="\t\tj := cheaprandn(uint32(norder + 1))\n"
@@ -31,9 +31,41 @@ for verb in ("send on","close of","receive on"):
     b="\tif c.bubble != nil && getg().bubble != c.bubble {\n\t\tif selectOrderMode == 0 {\n\t\t\tunlockf()\n\t\t\tfatal(\"%s synctest channel from outside bubble\")\n\t\t}\n\t\tc.bubble = getg().bubble\n\t}\n" % verb
     n+=ch.count(a); ch=ch.replace(a,b)
 assert n==5, "runtime/chan.go changed: %d bubble checks found" % n
+# Wake-first policy (variable runtime.wakeFirstMode, 0 = stock): a goroutine of a bubble that has just made another
+# goroutine runnable (channel hand-off, close, semaphore release) yields to it at once instead of running on to its own
+# next blocking point. The harness explores scenarios under both policies.
+for fn,k in (("send",1),("recv",1)):
+    a="\tgoready(gp, skip+1)\n}\n"
+    assert ch.count(a)==2, "runtime/chan.go changed: goready in send/recv"
+ch=ch.replace("\tgoready(gp, skip+1)\n}\n","\tgoready(gp, skip+1)\n\tverifYieldToWoken()\n}\n")
+a="\t\tgoready(gp, 3)\n\t}\n}\n"
+assert ch.count(a)==1, "runtime/chan.go changed: goready in closechan"
+ch=ch.replace(a,"\t\tgoready(gp, 3)\n\t}\n\tverifYieldToWoken()\n}\n")
+ch+="""
+// wakeFirstMode is set by the verification harness (0 = stock behaviour).
+//
+//go:linkname wakeFirstMode
+var wakeFirstMode uint32
+
+func verifYieldToWoken() {
+	if wakeFirstMode == 0 {
+		return
+	}
+	gp := getg()
+	if gp.bubble == nil || gp.m.curg != gp || gp.m.locks != 0 || gp.m.preemptoff != "" {
+		return
+	}
+	goyield()
+}
+"""
 open(sys.argv[4],"w").write(ch)
+se=open(sys.argv[5]).read()
+a="\t\t\tgoyield()\n\t\t}\n\t}\n}\n"
+assert se.count(a)==1, "runtime/sema.go changed: handoff yield not found"
+se=se.replace(a,"\t\t\tgoyield()\n\t\t} else {\n\t\t\tverifYieldToWoken()\n\t\t}\n\t}\n}\n")
+open(sys.argv[6],"w").write(se)
 PY
 cat > "$OUT/overlay.json" <<JSON
-{"Replace": {"$GR/src/runtime/select.go": "$OUT/runtime_select.go", "$GR/src/runtime/chan.go": "$OUT/runtime_chan.go", "$REPO/workflow/storage/cosmosdb/zz_verif.go": "$VERIF/overlay/cosmosdb_zz_verif.go"}}
+{"Replace": {"$GR/src/runtime/select.go": "$OUT/runtime_select.go", "$GR/src/runtime/chan.go": "$OUT/runtime_chan.go", "$GR/src/runtime/sema.go": "$OUT/runtime_sema.go", "$REPO/workflow/storage/cosmosdb/zz_verif.go": "$VERIF/overlay/cosmosdb_zz_verif.go"}}
 JSON
 echo "$OUT/overlay.json"
